@@ -11,8 +11,8 @@ ID = "C12"
 COQ_IMPORT = "Corr.CNodes"
 COQ_CASE_TYPE = "g_case"
 COQ_CHECK = "g_check"
-THEOREMS = []
-PROOF_FILES = ["Proofs/InferProofs.v"]
+THEOREMS = ["c12_inputs", "c12_outputs", "c12_input_type", "c12_output_type", "c12_after_construction", "c12_after_infer", "c12_after_from_list", "c12_after_from_dict", "c12_after_read", "c12_invariant"]
+PROOF_FILES = ["Proofs/MirrorClosedProofs.v"]
 RULE = ("graphs with 0..4 Input and 0..4 Output children under arbitrary (non-alphabetical, unicode) names and "
         "distinct shapes, nesting depth 0..3, incl. Inputs that are edge targets, erased/wrong Output shapes and "
         "nested graphs that make inference raise part-way; random histories of length 0..6 over {from_dict(to_dict), "
